@@ -979,9 +979,6 @@ func isinstance(obj py.Object, classOrTuple py.Object) (py.Bool, error) {
 		}
 		return false, nil
 	default:
-		if classOrTuple.Type().ObjectType != py.TypeType {
-			return false, py.ExceptionNewf(py.TypeError, "isinstance() arg 2 must be a type or tuple of types")
-		}
 		// instances of user classes are *py.Type values too (see
 		// Type.Alloc): unlike a class they have no method resolution order
 		cls, ok := classOrTuple.(*py.Type)
